@@ -126,6 +126,7 @@ func runC20(p *Prog, r *Report, tier string) {
 	r.Assumptions = []string{"go/ssa faithfully represents the module code", "frozen table of panicking dependency APIs (sdk.NewCoin/NewCoins, big.Int.FillBytes, binary.BigEndian.*, crypto.PubkeyToAddress, Must*)", "cosmossdk.io/math v1.3.0 nil-safety of Int.IsNil/BigInt/Marshal*", "crypto.Ecrecover returns 65 bytes on success", "tx handlers are invoked with a non-nil message"}
 	r.Trusted = r.Assumptions
 
+	externalAllowObligation(p, r, "P-external", "it may panic on some argument (only the tabled constructors have precondition rules)")
 	entries := p.c20Entries()
 	for name, fn := range entries {
 		if fn == nil {
@@ -141,6 +142,58 @@ func runC20(p *Prog, r *Report, tier string) {
 	parseContracts(p, r)
 
 	sites := p.panicSites(reach)
+	// the command-line client: what a command does with its address arguments before (or
+	// instead of) handing them to parseAddress — slicing, indexing or converting a string or
+	// byte value anywhere in the cli package (the argument vector itself is sized by cobra)
+	cliOnly := map[*ssa.Function]bool{}
+	for _, fn := range p.Funcs {
+		top := fn
+		for top.Parent() != nil {
+			top = top.Parent()
+		}
+		if top.Pkg != nil && top.Pkg.Pkg.Path() == modulePkgs[3] && !reach[fn] {
+			cliOnly[fn] = true
+		}
+	}
+	nCli := 0
+	for _, s := range p.panicSites(cliOnly) {
+		var base ssa.Value
+		switch in := s.In.(type) {
+		case *ssa.Slice:
+			base = in.X
+		case *ssa.IndexAddr:
+			base = in.X
+		case *ssa.Index:
+			base = in.X
+		case *ssa.SliceToArrayPointer:
+			base = in.X
+		default:
+			continue
+		}
+		T := base.Type().Underlying()
+		if ptr, ok := T.(*types.Pointer); ok {
+			T = ptr.Elem().Underlying()
+		}
+		isText := false
+		switch u := T.(type) {
+		case *types.Basic:
+			isText = u.Info()&types.IsString != 0
+		case *types.Slice:
+			if b, ok := u.Elem().Underlying().(*types.Basic); ok && b.Kind() == types.Byte {
+				isText = true
+			}
+		case *types.Array:
+			if b, ok := u.Elem().Underlying().(*types.Basic); ok && b.Kind() == types.Byte {
+				isText = true
+			}
+		}
+		if !isText {
+			continue
+		}
+		nCli++
+		sites = append(sites, s)
+	}
+	r.Extra["cli_text_sites_outside_parseAddress"] = nCli
 	ctx := map[*ssa.Function]*FC{}
 	fc := func(fn *ssa.Function) *FC {
 		if c, ok := ctx[fn]; ok {
@@ -201,6 +254,20 @@ func runC20(p *Prog, r *Report, tier string) {
 					}
 				}
 			}
+			recordSite(p, r, c, s, key, pos, ok, how)
+		case "toarray":
+			in := s.In.(*ssa.SliceToArrayPointer)
+			n := int(in.Type().(*types.Pointer).Elem().Underlying().(*types.Array).Len())
+			base := c.lenOf(in.X, in, plens)
+			recordSite(p, r, c, s, key, pos, base.min >= n, fmt.Sprintf("conversion to [%d]T needs len >= %d; known: len >= %d (%s)", n, n, base.min, base.why))
+		case "shift":
+			in := s.In.(*ssa.BinOp)
+			ok, how := c.proveNonNegative(in.Y, in, plens)
+			recordSite(p, r, c, s, key, pos, ok, "shift count must not be negative: "+how)
+		case "nilcall":
+			r.fail("P-site", key, pos, "call of a function value that may be nil: "+s.Desc)
+		case "nilderef":
+			ok, how := c.ptrNonNil(s.In.Operands(nil)[0], s.In, 0)
 			recordSite(p, r, c, s, key, pos, ok, how)
 		case "mapupdate":
 			_, fresh := s.In.(*ssa.MapUpdate).Map.(*ssa.MakeMap)
@@ -383,8 +450,18 @@ func recordSite(p *Prog, r *Report, c *FC, s panicSite, key, pos string, ok bool
 		return
 	}
 	for _, a := range c20Allow {
-		if a.fn == funcName(s.Fn) && regexp.MustCompile(a.contains).MatchString(s.Desc) {
+		if m := regexp.MustCompile(a.contains).FindStringSubmatch(s.Desc); a.fn == funcName(s.Fn) && m != nil {
 			missing := ""
+			if len(m) >= 4 {
+				// the offsets of the two bounds: low <= high
+				lo, hi := 0, 0
+				fmt.Sscan("0"+m[2], &lo)
+				fmt.Sscan("0"+m[3], &hi)
+				if lo > hi {
+					r.fail("P-site-allowlisted", key, pos, fmt.Sprintf("slice bounds [i*65+%d : i*65+%d] have low > high: always panics", lo, hi))
+					return
+				}
+			}
 			for _, req := range a.requires {
 				okAny := false
 				for _, alt := range splitAlts(req) {
@@ -748,4 +825,63 @@ func checkCtors(p *Prog, r *Report, reach map[*ssa.Function]bool, fc func(*ssa.F
 	}
 	r.ok("P-ctor", "P-ctor/class/cdc.Must(Un)Marshal", "", fmt.Sprintf("%d codec Must(Un)Marshal calls on module types accepted as a class: the store holds what the same codec wrote, and marshalling module types cannot fail", nMust))
 	r.floor("panicking-constructor-calls", n, 12)
+}
+
+// ptrNonNil: the pointer a dereference goes through cannot be nil — it is an address
+// computation, a parameter (the callers' business: request pointers have their own rule), a
+// value read from memory or returned by code outside the module (not judged), or the result of
+// a module function all of whose returns are such; a phi with a nil edge or a module function
+// that can return nil needs a dominating `!= nil` test.
+func (c *FC) ptrNonNil(vp *ssa.Value, at ssa.Instruction, depth int) (bool, string) {
+	v := *vp
+	return c.ptrNonNilV(v, at, depth, map[ssa.Value]bool{})
+}
+
+func (c *FC) ptrNonNilV(v ssa.Value, at ssa.Instruction, depth int, seen map[ssa.Value]bool) (bool, string) {
+	if seen[v] || depth > 10 {
+		return true, ""
+	}
+	seen[v] = true
+	guarded := func() bool {
+		t := c.x.Of(v, at).String()
+		return established(c, "("+t+" == nil)", false, at) || established(c, "(nil == "+t+")", false, at)
+	}
+	switch o := v.(type) {
+	case *ssa.Const:
+		if o.Value == nil {
+			return false, "dereference of the nil constant"
+		}
+	case *ssa.Phi:
+		for _, e := range o.Edges {
+			if ok, why := c.ptrNonNilV(e, at, depth+1, seen); !ok {
+				if guarded() {
+					return true, "behind a != nil test"
+				}
+				return false, why
+			}
+		}
+	case *ssa.Call:
+		callee := o.Call.StaticCallee()
+		if callee == nil || o.Call.IsInvoke() || !c.p.inModuleCode(callee) || callee.Blocks == nil {
+			return true, "result of code outside the module (not judged)"
+		}
+		if _, isPtr := o.Type().Underlying().(*types.Pointer); !isPtr {
+			return true, ""
+		}
+		cc := c.p.fc(c.r, callee, funcName(callee), nil)
+		for _, ret := range allReturns(callee) {
+			if len(ret.Results) != 1 {
+				continue
+			}
+			if ok, why := cc.ptrNonNilV(ret.Results[0], ret, depth+1, map[ssa.Value]bool{}); !ok {
+				if guarded() {
+					return true, "behind a != nil test"
+				}
+				return false, fmt.Sprintf("%s can return nil (%s) and the result is dereferenced without a nil test", funcName(callee), why)
+			}
+		}
+	case *ssa.ChangeType:
+		return c.ptrNonNilV(o.X, at, depth+1, seen)
+	}
+	return true, "address computation, parameter, loaded value or non-nil by construction"
 }
